@@ -312,7 +312,13 @@ def c07_receive_side(env):
         if post["next_incoming_id"] is None:
             raise mir.Unsupported("next_incoming_id lost (whole-session havoc before the counter update?)")
         k += 1
-        o.prove(f"path{i}({p.end}):next-incoming-id+1", ex.assumptions + p.cond, post["next_incoming_id"] == v["next_incoming_id"] + 1)
+        def replay(m):
+            # natively: a transfer for a handle nothing is attached to (the path on which the frame cannot be delivered)
+            nii = model_value(m, v["next_incoming_id"])
+            cmds = [f"xfer_in 3 0 0 10 10 {x} 0 10 10 7" for x in sorted({nii, 0, 7, 0xFFFFFFFF})]
+            return cmds, (lambda outs: any(js.get("panic") or js["next_incoming_id"] != ((x + 1) & 0xFFFFFFFF) for x, js in zip(sorted({nii, 0, 7, 0xFFFFFFFF}), outs)))
+
+        o.prove(f"path{i}({p.end}):next-incoming-id+1", ex.assumptions + p.cond, post["next_incoming_id"] == v["next_incoming_id"] + 1, replay=replay)
     o.cover("paths", [z3.BoolVal(k > 0)])
     out.append(o)
 
@@ -2290,7 +2296,10 @@ def _conn_dispatch(env, prop):
         (r"^Slab::<.*>::contains$", m_contains),
         (r"<Slab<.*> as Index(Mut)?<usize>>::index(_mut)?$", m_index),
     ]
-    paths = ex.run(fn, {"_1": mir.Ref(("@self",), True), "@self": C, "_2": mir.Agg("channel"), "_3": mir.Ref(("@begin",), False), "@begin": B})
+    ch_v = z3.BitVec("frame.channel", 16)
+    CH = mir.Agg("IncomingChannel")
+    CH[0] = ch_v
+    paths = ex.run(fn, {"_1": mir.Ref(("@self",), True), "@self": C, "_2": CH, "_3": mir.Ref(("@begin",), False), "@begin": B})
     hyp = ex.assumptions + [state_valid(env, d, "ConnectionState"), z3.ULE(rc_d, 1)]
     live = occ(z3.ZeroExt(48, rc_v))
 
@@ -2313,6 +2322,21 @@ def _conn_dispatch(env, prop):
         o.prove(f"path{i}:recorded-at-most-once", H, z3.BoolVal(inserts <= 1), replay=replay)
         if inserts:
             o.prove(f"path{i}:recorded-only-for-a-live-session-while-opened", H, z3.And(ok, d == E["Opened"], rc_d == 1, live), replay=replay)
+        if prop == "C11":
+            # routing: the session is the one the peer's remote-channel names (our channel), and it is recorded
+            # under the channel the peer's frame arrived on (the peer's channel) -- the two number spaces are independent
+            def replay_shift(m):
+                return ["scn shifted_channels 7", "scn shifted_channels 1"], (lambda outs: any(js.get("panic") or js["client"] != "ok" for js in outs))
+
+            gets = [c for c in p.calls if re.search(r"^Slab::<.*>::get(_mut)?$", c[0])]
+            ins = [c for c in p.calls if re.search(r"HashMap::<.*>::insert$", c[0])]
+            for c in gets:
+                k = c[1][1]
+                o.prove(f"path{i}:the-session-is-looked-up-by-the-remote-channel-field", H + [rc_d == 1], (key64(k) == z3.ZeroExt(48, rc_v)) if z3.is_bv(k) else z3.BoolVal(False), replay=replay_shift)
+            for c in ins:
+                k = c[1][1]
+                kv = k.get(0) if isinstance(k, mir.Agg) else k
+                o.prove(f"path{i}:the-session-is-recorded-under-the-channel-the-frame-arrived-on", H, (kv == ch_v) if (kv is not None and z3.is_bv(kv) and kv.size() == 16) else z3.BoolVal(False), replay=replay_shift)
         for (dsc, okc, c) in p.obligations:
             o.prove(f"path{i}:{dsc}", hyp + c, okc, replay=replay)
     o.cover("paths", [z3.BoolVal(n > 1)])
@@ -2374,8 +2398,16 @@ def c15_conn_dispatch(env):
     return _conn_dispatch(env, "C15")
 
 
+def c11_conn_dispatch(env):
+    o = _conn_dispatch(env, "C11")[0]
+    o.name = "c11_begin_is_routed_by_remote_channel"
+    o.desc = "an incoming begin that answers ours: the session it is attached to is the one whose (local) channel the remote-channel field names, and from then on frames arriving on the peer's channel (the channel of this very frame) are routed to that session -- the peer numbers its channels independently of ours"
+    return [o]
+
+
 REGISTRY.setdefault("C12", []).append(c12_conn_dispatch)
 REGISTRY.setdefault("C15", []).append(c15_conn_dispatch)
+REGISTRY.setdefault("C11", []).append(c11_conn_dispatch)
 
 
 # ---- C08: the granting side publishes the credit before it wakes the waiters ---------------------
@@ -2973,3 +3005,478 @@ def c13_detach_answered_in_kind(env):
 
 
 REGISTRY.setdefault("C13", []).append(c13_detach_answered_in_kind)
+
+
+# ---- C06: switching codecs must not lose bytes that were read together with the previous item -------
+
+
+CODEC_SWITCH_SITES = [
+    # (obligation suffix, MIR function, what it switches)
+    ("amqp_header", r"^transport::<impl at [^>]*>::negotiate_amqp_header::\{closure#0\}$", "protocol-header codec -> AMQP frame codec (client and listener)"),
+    ("sasl_header", r"^transport::<impl at [^>]*>::negotiate_sasl_header::\{closure#0\}$", "protocol-header codec -> SASL frame codec (client)"),
+    ("client_after_sasl", r"^connection::builder::<impl at [^>]*>::connect_with_stream::\{closure#0\}$", "SASL frame codec -> protocol-header codec (client, after the outcome)"),
+    ("listener_after_sasl", r"^acceptor::connection::<impl at [^>]*>::negotiate_sasl_with_framed::\{closure#0\}$", "SASL frame codec -> protocol-header codec (listener, after the outcome)"),
+]
+
+
+def c06_codec_switch(env):
+    out = []
+    for suffix, pat, what in CODEC_SWITCH_SITES:
+        o = Obligation(f"c06_codec_switch_keeps_read_bytes_{suffix}", "C06")
+        o.desc = f"{what}: the reader that goes on decoding after the switch holds exactly the bytes the previous reader had already taken from the stream but not yet consumed (a peer may pipeline its next frame behind the header / outcome; one read then delivers both) -- for every number n of such bytes. tokio-util's contract: map_decoder keeps the read buffer, into_inner / a new FramedRead start with an empty one"
+        try:
+            fn = env.fn(pat)
+        except Exception as e:  # noqa: BLE001
+            raise mir.Unsupported(f"codec switch site {suffix} not found: {e}")
+        o.functions = [fn.name]
+        o.bounds = ["coroutine body from its initial state through one poll in which every inner future may be ready or pending; loops unrolled 2 times; n is any 64-bit value"]
+        o.assumes = ["tokio_util::codec::FramedRead: map_decoder preserves the buffer, new()/with_capacity() start empty, into_inner() discards it (tokio-util documentation)"]
+        ex = env.executor(max_visits=2)
+        ex.max_paths = 3000
+        cnt = [0]
+
+        def buf_of(x):
+            if "@buffered" not in x:
+                x["@buffered"] = z3.BitVec(f"bytes_buffered_by_reader#{cnt[0]}", 64)
+                cnt[0] += 1
+            return x["@buffered"]
+
+        def as_agg(ex_, st, v):
+            if isinstance(v, mir.Ref):
+                cont, key = ex_.resolve(st, list(v.path))
+                v = cont.get(key)
+                if not isinstance(v, mir.Agg):
+                    v = mir.Agg("FramedRead")
+                    cont[key] = v
+            if not isinstance(v, mir.Agg):
+                v = mir.Agg("FramedRead")
+            return v
+
+        def m_map(ex_, st, callee, args, argvals, dty):
+            src = as_agg(ex_, st, argvals[0])
+            r = mir.Agg("FramedRead")
+            r["@buffered"] = buf_of(src)
+            r["@from"] = ("consumed", buf_of(src))
+            return r
+
+        def m_into_inner(ex_, st, callee, args, argvals, dty):
+            src = as_agg(ex_, st, argvals[0])
+            r = mir.Agg("io")
+            r["@dropped"] = buf_of(src)
+            return r
+
+        def m_new(ex_, st, callee, args, argvals, dty):
+            r = mir.Agg("FramedRead")
+            r["@buffered"] = z3.BitVecVal(0, 64)
+            io = argvals[0] if argvals else None
+            if isinstance(io, mir.Agg) and "@dropped" in io:
+                r["@from"] = ("consumed", io["@dropped"])
+            return r
+
+        def m_into_framed(ex_, st, callee, args, argvals, dty):
+            t = mir.Agg("(FramedWrite, FramedRead)")
+            t[0] = mir.Agg("FramedWrite")
+            fr = mir.Agg("FramedRead")
+            buf_of(fr)
+            t[1] = fr
+            return t
+
+        ex.models = [
+            (r"^FramedRead::<.*>::map_decoder::<", m_map),
+            (r"^FramedRead::<.*>::into_inner$", m_into_inner),
+            (r"^FramedRead::<.*>::(new|with_capacity)$", m_new),
+            (r"^Transport::<.*>::into_framed_codec$", m_into_framed),
+        ]
+        pin, cor = coroutine_start(env, "@self", {})
+        init = {"_1": pin, "@cor": cor, "@self": mir.Agg("self")}
+        # the reader is an argument of the async fn: a field of the coroutine in its initial state
+        paths = ex.run(fn, init)
+        hyp = ex.assumptions
+
+        def replay(m, suffix=suffix):
+            cmds = ["scn pipelined_open", "scn pipelined_sasl"]
+            return cmds, (lambda outs: any(js.get("panic") or js["client"] != "opened" for js in outs))
+
+        sinks = r"bind_to_framed_codec$|::connect_amqp_with_framed::<|::negotiate_amqp_with_framed::<"
+        n = 0
+        for i, p in enumerate(paths):
+            for c in p.calls:
+                if not re.search(sinks, c[0]):
+                    continue
+                n += 1
+                frs = [a for a in c[1] if isinstance(a, mir.Agg) and a.label == "FramedRead"]
+                H = hyp + list(c[2])
+                if len(frs) != 1 or "@from" not in frs[0]:
+                    o.prove(f"path{i}:the-reader-handed-on-is-derived-from-the-previous-reader", H, z3.BoolVal(False), replay=replay)
+                    continue
+                o.prove(f"path{i}:no-buffered-byte-is-lost-at-the-switch", H, frs[0]["@buffered"] == frs[0]["@from"][1], replay=replay)
+        o.cover("paths that reach the switch", [z3.BoolVal(n > 0)])
+        out.append(o)
+    return out
+
+
+REGISTRY.setdefault("C06", []).append(c06_codec_switch)
+
+
+# ---- C19: the server signature is compared in full (no prefix of it is accepted) -------------------
+
+
+def c19_scram_signature_full_length(env):
+    o = Obligation("c19_scram_server_signature_is_compared_in_full", "C19")
+    o.desc = "ScramVersion::validate_server_final: it returns Ok only if the verifier the server sent has the same length as the signature the client computed (under the std contract that slice/Vec equality implies equal lengths) -- an empty or truncated `v=` is never accepted as proof that the server knows the password"
+    fn = env.fn(r"^auth::scram::<impl at [^>]*>::validate_server_final$")
+    o.functions = [fn.name]
+    o.bounds = ["one call; every result of utf-8 / split / base64 decoding; lengths of both byte strings any 64-bit value"]
+    o.assumes = ["<Vec<u8> as PartialEq<[u8]>>::eq(a, b) implies a.len() == b.len() (std); len() reports the length; iterator adaptors (zip, fold, ...) are unconstrained: they promise nothing about lengths"]
+    ex = env.executor(max_visits=3)
+    la, lb = z3.BitVec("len(verifier sent by the server)", 64), z3.BitVec("len(signature computed by the client)", 64)
+    expected = mir.Agg("server_signature")
+    expected["@len"] = lb
+
+    def deref(ex_, st, v, depth=0):
+        while isinstance(v, mir.Ref) and depth < 4:
+            cont, key = ex_.resolve(st, list(v.path))
+            v = cont.get(key)
+            depth += 1
+        return v
+
+    def m_decode(ex_, st, callee, args, argvals, dty):
+        r = mir.Agg("Result")
+        r["#d"] = z3.BitVec("base64.decode.is_err", 64)
+        ex_.assumptions.append(z3.ULE(r["#d"], 1))
+        okv = mir.Agg("Ok")
+        vec = mir.Agg("decoded_verifier")
+        vec["@len"] = la
+        okv[0] = vec
+        r[("as", "Ok")] = okv
+        return r
+
+    def m_len(ex_, st, callee, args, argvals, dty):
+        x = deref(ex_, st, argvals[0])
+        if isinstance(x, mir.Agg) and "@len" in x:
+            return x["@len"]
+        return None
+
+    def m_eq(ex_, st, callee, args, argvals, dty):
+        a, b = deref(ex_, st, argvals[0]), deref(ex_, st, argvals[1])
+        e = z3.Bool(f"eq#{ex_.ctx.n}")
+        ex_.ctx.n += 1
+        if isinstance(a, mir.Agg) and isinstance(b, mir.Agg) and "@len" in a and "@len" in b:
+            ex_.assumptions.append(z3.Implies(e, a["@len"] == b["@len"]))
+        return e
+
+    def m_ne(ex_, st, callee, args, argvals, dty):
+        return z3.Not(m_eq(ex_, st, callee, args, argvals, dty))
+
+    def m_deref(ex_, st, callee, args, argvals, dty):
+        # Vec<u8> -> &[u8]: the same bytes
+        x = deref(ex_, st, argvals[0])
+        return x if isinstance(x, mir.Agg) and "@len" in x else None
+
+    ex.models = [
+        (r"Engine>::decode::<", m_decode),
+        (r"^(Vec::<u8>|core::slice::<impl \[u8\]>)::len$", m_len),
+        (r"as PartialEq<.*>>::eq$", m_eq),
+        (r"as PartialEq<.*>>::ne$", m_ne),
+        (r"^<Vec<u8> as (std::ops::)?Deref>::deref$|^Vec::<u8>::as_slice$|as AsRef<\[u8\]>>::as_ref$", m_deref),
+    ]
+    paths = ex.run(fn, {"_1": mir.Ref(("@self",), False), "@self": mir.Agg("version"), "_2": mir.Agg("server_final"), "_3": expected})
+    hyp = ex.assumptions
+
+    def replay(m):
+        cmds = ["scram_rogue 3", "scram_rogue 4"]
+        return cmds, (lambda outs: any(js.get("panic") or js["client_proceeded"] for js in outs))
+
+    n = 0
+    for i, p in enumerate(paths):
+        if p.end != "return" or not isinstance(p.ret, mir.Agg) or "#d" not in p.ret:
+            continue
+        H = hyp + p.cond + [p.ret["#d"] == 0]
+        s = z3.Solver()
+        s.add(*H)
+        if s.check() != z3.sat:
+            continue
+        n += 1
+        o.prove(f"path{i}:accepted-only-if-the-lengths-are-equal", H, la == lb, replay=replay)
+    o.cover("an accepting path exists", [z3.BoolVal(n > 0)])
+    return [o]
+
+
+REGISTRY.setdefault("C19", []).append(c19_scram_signature_full_length)
+
+
+# ---- C15: waiting for the peer's close ends when the transport reports an error or ends ------------
+
+
+def c15_wait_for_remote_close(env):
+    o = Obligation("c15_wait_for_close_ends_on_transport_error", "C15")
+    o.desc = "ConnectionEngine::wait_for_remote_close (the loop the engine sits in after it sent its own close, incl. DISCARDING): when the transport yields an error (decode error, io error, the local idle time-out -- which stays elapsed) or the end of the stream, the wait ends with that error in the same step; it is never retried (a retry on a sticky error is a busy loop that never yields and never reports)"
+    fn = env.fn(r"^connection::engine::<impl at [^>]*>::wait_for_remote_close::\{closure#0\}$")
+    o.functions = [fn.name]
+    m = re.search(r"switchInt\(move _\d+\) -> \[(.*)\]", fn.blocks["bb0"][1])
+    states = [int(x.split(":")[0]) for x in m.group(1).split(", ") if x.split(":")[0].isdigit()] if m else [0]
+    states = [k for k in states if k not in (1, 2)]
+    o.bounds = [f"coroutine body from every resume state {states} through one poll; loop unrolled 3 times; every connection state; every frame"]
+    o.assumes = ["futures StreamExt::next: Ready(None) = end of stream, Ready(Some(Err)) = transport error"]
+    pat_poll = r"^<(futures_util::stream::)?Next<.*> as (futures_util::|std::future::)?Future>::poll$"
+
+    def replay(m):
+        return "scn silent_after_error_close", (lambda js: js.get("panic") or js["client"] == "still_running")
+
+    n = 0
+    for k0 in states:
+        ex = env.executor(max_visits=3)
+        ex.max_paths = 2000
+        seen = []
+
+        def m_poll(ex_, st, callee, args, argvals, dty, seen=seen):
+            k = len(seen)
+            pd = z3.BitVec(f"next#{k}.poll", 64)
+            od = z3.BitVec(f"next#{k}.option", 64)
+            rd = z3.BitVec(f"next#{k}.result", 64)
+            res = mir.Agg("Result")
+            res["#d"] = rd
+            opt = mir.Agg("Option")
+            opt["#d"] = od
+            sm = mir.Agg("Some")
+            sm[0] = res
+            opt[("as", "Some")] = sm
+            poll = mir.Agg("Poll")
+            poll["#d"] = pd
+            rv = mir.Agg("Ready")
+            rv[0] = opt
+            poll[("as", "Ready")] = rv
+            ex_.assumptions += [z3.ULE(pd, 1), z3.ULE(od, 1), z3.ULE(rd, 1)]
+            seen.append((pd, od, rd))
+            return poll
+
+        ex.models = [(pat_poll, m_poll)]
+        cor = mir.Agg("coroutine")
+        cor["#d"] = z3.BitVecVal(k0, 64)
+        cor[0] = mir.Ref(("@engine",), True)
+        pin = mir.Agg("pin")
+        pin[0] = mir.Ref(("@cor",), True)
+        paths = ex.run(fn, {"_1": pin, "@cor": cor, "@engine": mir.Agg("engine")})
+        hyp = ex.assumptions
+        for i, p in enumerate(paths):
+            polls = [c for c in p.calls if re.search(pat_poll, c[0])]
+            if not polls:
+                continue
+            # the first poll of this step
+            r0 = polls[0][3]
+            j = [t for t, sn in enumerate(seen) if r0.get("#d") is sn[0]]
+            if not j:
+                continue
+            pd, od, rd = seen[j[0]]
+            bad = z3.And(pd == 0, z3.Or(od == 0, z3.And(od == 1, rd == 1)))
+            H = hyp + p.cond + [bad]
+            s = z3.Solver()
+            s.add(*H)
+            if s.check() != z3.sat:
+                continue
+            n += 1
+            o.prove(f"state{k0}.path{i}:the-wait-is-not-retried-after-an-error", H, z3.BoolVal(len(polls) == 1 and p.end == "return"), replay=replay)
+            if p.end == "return" and isinstance(p.ret, mir.Agg):
+                rdy, is_ok = poll_ready_result(p.ret)
+                o.prove(f"state{k0}.path{i}:the-error-ends-the-wait", H, z3.And(rdy, z3.Not(is_ok)) if is_ok is not None else z3.BoolVal(False), replay=replay)
+    o.cover("paths on which the transport fails", [z3.BoolVal(n > 0)])
+    return [o]
+
+
+REGISTRY.setdefault("C15", []).append(c15_wait_for_remote_close)
+
+
+# ---- C08: the sender's answer to a flow (echo / drain) is passed on unchanged -----------------------
+
+
+def c08_flow_reply_is_sent(env):
+    o = Obligation("c08_flow_reply_is_passed_on", "C08")
+    o.desc = "LinkRelay::on_incoming_flow, sender side: the flow the link's flow state produces in answer to an incoming flow (C08's Kani harness: present when the peer asked for an echo or for a drain, showing zero credit after a drain) is handed to the session for sending exactly when it was produced -- no answer is dropped and none is invented"
+    fn = env.fn(r"^link::<impl at [^>]*>::on_incoming_flow::\{closure#0\}$", sig=r"LinkRelay<endpoint::OutputHandle>|LinkRelay<OutputHandle>")
+    o.functions = [fn.name]
+    o.bounds = ["coroutine body from its initial state through one poll, the Sender variant of the relay; every incoming flow; the produced answer present or absent"]
+    o.assumes = ["Producer::produce applies the flow and returns LinkFlowState::on_incoming_flow's answer (c08_grant_publishes_before_waking, c08_sender_on_incoming_flow)"]
+    R = env.enums["LinkRelay"]
+    ex = env.executor(max_visits=3)
+    relay = mir.Agg("relay")
+    relay["#d"] = z3.BitVecVal(R["Sender"], 64)
+    reply_d = z3.BitVec("produced_answer.is_some", 64)
+    pat = r"produce::<.*>\(\)\} as (futures_util::|std::future::)?Future>::poll$|async fn body of .*produce.* as (futures_util::|std::future::)?Future>::poll$"
+
+    def m_poll(ex_, st, callee, args, argvals, dty):
+        opt = mir.Agg("Option<LinkFlow>")
+        opt["#d"] = reply_d
+        sm = mir.Agg("Some")
+        sm[0] = mir.Agg("answer")
+        sm[0]["@answer"] = True
+        opt[("as", "Some")] = sm
+        poll = mir.Agg("Poll")
+        poll["#d"] = z3.BitVec(f"produce.poll#{ex_.ctx.n}", 64)
+        ex_.ctx.n += 1
+        ex_.assumptions.append(z3.ULE(poll["#d"], 1))
+        rv = mir.Agg("Ready")
+        rv[0] = opt
+        poll[("as", "Ready")] = rv
+        return poll
+
+    ex.models = [(pat, m_poll)]
+    cor = mir.Agg("coroutine")
+    cor["#d"] = z3.BitVecVal(0, 64)
+    cor[0] = mir.Ref(("@relay",), True)
+    cor[1] = mir.Agg("flow")
+    pin = mir.Agg("pin")
+    pin[0] = mir.Ref(("@cor",), True)
+    paths = ex.run(fn, {"_1": pin, "@cor": cor, "@relay": relay})
+    hyp = ex.assumptions + [z3.ULE(reply_d, 1)]
+
+    def replay(m):
+        cmds = ["scn drain_reply 0", "scn drain_reply 1"]
+        return cmds, (lambda outs: any(js.get("panic") or not js["answered_with_zero_credit"] for js in outs))
+
+    n = 0
+    for i, p in enumerate(paths):
+        if p.end != "return" or not isinstance(p.ret, mir.Agg):
+            continue
+        if not [c for c in p.calls if re.search(pat, c[0])]:
+            continue
+        rdy, is_ok = poll_ready_result(p.ret)
+        if is_ok is None:
+            continue
+        H = hyp + p.cond + [rdy]
+        s = z3.Solver()
+        s.add(*H)
+        if s.check() != z3.sat:
+            continue
+        n += 1
+        okv = p.ret[("as", "Ready")][0].get(("as", "Ok"))
+        out_d = okv[0].get("#d") if isinstance(okv, mir.Agg) and isinstance(okv.get(0), mir.Agg) else None
+        o.prove(f"path{i}:handling-a-flow-does-not-fail", H, is_ok, replay=replay)
+        o.prove(f"path{i}:the-answer-is-sent-exactly-when-one-was-produced", H + [is_ok], (out_d == reply_d) if out_d is not None else z3.BoolVal(False), replay=replay)
+    o.cover("paths through the sender arm", [z3.BoolVal(n > 0)])
+    return [o]
+
+
+REGISTRY.setdefault("C08", []).append(c08_flow_reply_is_sent)
+
+
+# ---- C09: a complete delivery consumes its credit before anything can fail --------------------------
+
+
+def c09_credit_before_decode(env):
+    o = Obligation("c09_every_complete_delivery_consumes_credit", "C09")
+    o.desc = "ReceiverLink::on_complete_transfer: the credit for a delivery is taken (LinkFlowState::consume(1), which also advances the mirrored delivery-count and rejects an overrun) before the payload is decoded -- a delivery whose body does not decode as the requested type still counts against the credit issued and the delivery-count reported"
+    fn = env.fn(r"^receiver_link::<impl at [^>]*>::on_complete_transfer$")
+    o.functions = [fn.name]
+    o.bounds = ["one call; every link state; every transfer; decoding succeeds or fails"]
+    o.assumes = ["LinkFlowState<Receiver>::consume is C09's Kani harness"]
+    ex = env.executor(max_visits=3)
+    ex.max_paths = 3000
+    paths = ex.run(fn, {"_1": mir.Ref(("@link",), True), "@link": mir.Agg("link"), "_2": mir.Agg("transfer"), "_3": mir.Agg("payload")})
+    hyp = ex.assumptions
+
+    def replay(m):
+        return ["scn undecodable_delivery 0", "scn undecodable_delivery 1"], (lambda outs: any(js.get("panic") or js["flow_delivery_count"] != 2 or js["third_accepted"] for js in outs))
+
+    n = 0
+    for i, p in enumerate(paths):
+        if p.end != "return":
+            continue
+        names = [c[0] for c in p.calls]
+        cons = [k for k, c in enumerate(names) if re.search(r"LinkFlowState::<.*>::consume$", c)]
+        dec = [k for k, c in enumerate(names) if re.search(r"DecodeIntoMessage>::decode_message_from_reader", c)]
+        H = hyp + p.cond
+        if dec:
+            n += 1
+            o.prove(f"path{i}:credit-is-taken-before-the-payload-is-decoded", H, z3.BoolVal(len(cons) == 1 and cons[0] < dec[0]), replay=replay)
+        if isinstance(p.ret, mir.Agg) and "#d" in p.ret:
+            o.prove(f"path{i}:a-delivery-is-produced-only-after-taking-one-credit", H + [p.ret["#d"] == 0], z3.BoolVal(len(cons) == 1), replay=replay)
+    o.cover("paths that decode a payload", [z3.BoolVal(n > 0)])
+    return [o]
+
+
+REGISTRY.setdefault("C09", []).append(c09_credit_before_decode)
+
+
+# ---- C03 / C20: the "next primitive is really a <restricted type>" mode is consumed by that primitive
+
+
+NNT_SITES = [
+    # (obligation, property, crate, function, struct, which modes the function consumes, what is at stake)
+    ("c03_ser_bytes_consumes_the_type_mode", "C03", r"^ser::<impl at [^>]*>::serialize_bytes$", "ser::Serializer", ("Dec32", "Dec64", "Dec128", "Uuid"), True),
+    ("c03_ser_str_consumes_the_type_mode", "C03", r"^ser::<impl at [^>]*>::serialize_str$", "ser::Serializer", ("Symbol", "SymbolRef"), True),
+    ("c03_ser_i64_consumes_the_type_mode", "C03", r"^ser::<impl at [^>]*>::serialize_i64$", "ser::Serializer", ("Timestamp",), True),
+    ("c20_value_ser_bytes_consumes_the_type_mode", "C20", r"^value::ser::<impl at [^>]*>::serialize_bytes$", "value::ser::Serializer", ("Dec32", "Dec64", "Dec128", "Uuid"), False),
+    ("c20_value_ser_str_consumes_the_type_mode", "C20", r"^value::ser::<impl at [^>]*>::serialize_str$", "value::ser::Serializer", ("Symbol", "SymbolRef"), False),
+    ("c20_value_ser_i64_consumes_the_type_mode", "C20", r"^value::ser::<impl at [^>]*>::serialize_i64$", "value::ser::Serializer", ("Timestamp",), False),
+]
+
+
+def _nnt_obligations(env, prop):
+    out = []
+    senv = env.crate("serde_amqp")
+    NN = senv.enums["NonNativeType"]
+    for name, pr, pat, struct, modes, has_array in NNT_SITES:
+        if pr != prop:
+            continue
+        o = Obligation(name, prop)
+        o.desc = "a restricted type (uuid, decimal, timestamp, symbol) is serialized as `mode := its type; serialize the underlying primitive`: the primitive serializer must clear the mode when it used it, otherwise the NEXT primitive written through the same serializer (the value of a map entry whose key was that type) is encoded as that type as well -- decode(encode(x)) != x, and the byte encoder and the value-tree encoder disagree"
+        fn = senv.fn(pat)
+        o.functions = [fn.name + " (serde_amqp)"]
+        o.bounds = ["one call; every mode the function accepts; every string / byte length; outside arrays (array elements keep the mode for the whole array)"]
+        o.assumes = ["the writer only writes (opaque; it cannot touch the mode)"]
+        ex = mir.Executor(senv.fns, senv.structs, senv.enums, max_visits=3, consts=senv.consts)
+        S = mir.Agg("serializer")
+        f_nnt = senv.fidx(struct, "non_native_type")
+        opt = mir.Agg("non_native_type")
+        opt["#d"] = z3.BitVecVal(1, 64)
+        inner = mir.Agg("NonNativeType")
+        nn_d = z3.BitVec("mode", 64)
+        inner["#d"] = nn_d
+        sm = mir.Agg("Some")
+        sm[0] = inner
+        opt[("as", "Some")] = sm
+        S[f_nnt] = opt
+        arr_d = None
+        if has_array:
+            f_arr = senv.fidx(struct, "is_array_elem")
+            arr = mir.Agg("is_array_elem")
+            arr_d = z3.BitVec("is_array_elem", 64)
+            arr["#d"] = arr_d
+            S[f_arr] = arr
+        paths = ex.run(fn, {"_1": mir.Ref(("@ser",), True), "@ser": S, "_2": mir.Agg("value")})
+        hyp = ex.assumptions + [z3.Or(*[nn_d == NN[m] for m in modes])]
+        if arr_d is not None:
+            hyp = hyp + [arr_d == senv.enums["IsArrayElement"]["False"]]
+
+        def replay(m, prop=prop):
+            cmds = ["nnt_map uuid", "nnt_map dec32", "nnt_map symbol", "nnt_map timestamp"] if prop == "C03" else ["nnt_value symbol", "nnt_value uuid", "nnt_value timestamp"]
+            return cmds, (lambda outs: any(js.get("panic") or not js["agree"] for js in outs))
+
+        n = 0
+        for i, p in enumerate(paths):
+            if p.end != "return" or not isinstance(p.ret, mir.Agg) or "#d" not in p.ret:
+                continue
+            H = hyp + p.cond + [p.ret["#d"] == 0]
+            s = z3.Solver()
+            s.add(*H)
+            if s.check() != z3.sat:
+                continue
+            n += 1
+            cur = p.locals["@ser"].get(f_nnt) if isinstance(p.locals.get("@ser"), mir.Agg) else None
+            post_d = cur.get("#d") if isinstance(cur, mir.Agg) else None
+            o.prove(f"path{i}:the-mode-is-cleared-once-used", H, (post_d == 0) if post_d is not None else z3.BoolVal(False), replay=replay)
+        o.cover("a path that uses the mode", [z3.BoolVal(n > 0)])
+        out.append(o)
+    return out
+
+
+def c03_nnt(env):
+    return _nnt_obligations(env, "C03")
+
+
+def c20_nnt(env):
+    return _nnt_obligations(env, "C20")
+
+
+REGISTRY.setdefault("C03", []).append(c03_nnt)
+REGISTRY.setdefault("C20", []).append(c20_nnt)
